@@ -158,6 +158,18 @@ class ObjMon:
         if ba < 0:
             self.rig.violation("lifecycle", "bufferedamount-negative", f"bufferedAmount {ba} < 0 ({where})",
                                chan=self.chan.uid if self.chan else None, ep=self.ep.name)
+        if st == "open" and not self.rig.relay and not self.ep.in_send:
+            self.rig.counters["bufferedamount_shadow_checks"] += 1
+            if ba != self.shadow:
+                self.rig.violation("lifecycle", "bufferedamount-mismatch",
+                                   f"bufferedAmount {ba} != bytes accepted and not yet handed to SCTP {self.shadow} ({where})",
+                                   chan=self.chan.uid if self.chan else None, ep=self.ep.name)
+                self.shadow = ba  # resynchronise: report once per divergence
+            if self.low_seen != self.low_expected:
+                self.rig.violation("lifecycle", "bufferedamountlow-count",
+                                   f"bufferedamountlow fired {self.low_seen} times, {self.low_expected} downward crossings ({where})",
+                                   chan=self.chan.uid if self.chan else None, ep=self.ep.name)
+                self.low_expected = self.low_seen
 
 
 class Endpoint:
@@ -173,6 +185,7 @@ class Endpoint:
         self.unknown_remote = []
         self.connected_at = None
         self.handler_busy = False
+        self.in_send = 0
 
 
 class SctpRig:
@@ -217,6 +230,7 @@ class SctpRig:
                 st.random32 = lambda: rng.getrandbits(32)
             ep.sctp = st.RTCSctpTransport(ep.dtls)
             ep.rxq = asyncio.Queue()
+            self._wrap_send(ep)
         st.random32 = self._saved_random32
 
         ma = FaultModel(rng, self.heal_at, spec_ab if spec_ab is not None else FaultModel.random_spec(rng, heavy))
@@ -272,7 +286,8 @@ class SctpRig:
     def violation(self, cat, key, what, **extra):
         self.counters["viol_" + cat] += 1
         if len(self.violations) < 12:
-            self.violations.append({"cat": cat, "key": key, "what": what, "t": self.now(), **extra})
+            self.violations.append({"cat": cat, "key": key, "what": what, "t": self.now(),
+                                    "ctx": [list(map(str, e)) for e in list(self.events)[-14:]], **extra})
         self.log("VIOLATION", cat, key, what)
 
     def _loop_exception(self, loop, context):
@@ -397,6 +412,31 @@ class SctpRig:
             if ep.connected_at is None and ep.sctp.state == "connected":
                 ep.connected_at = self.now()
 
+    def _wrap_send(self, ep):
+        """Observe the hand-over of user messages to SCTP (ULP -> stream) for the bufferedAmount shadow."""
+        real = ep.sctp._send
+        dcep = self.st.WEBRTC_DCEP
+
+        async def _send(stream_id, pp_id, user_data, *a, **kw):
+            mon = None
+            if pp_id != dcep:
+                obj = ep.sctp._data_channels.get(stream_id)
+                mon = ep.mons.get(id(obj)) if obj is not None else None
+                if mon is not None:
+                    before = mon.shadow
+                    mon.shadow -= len(user_data)
+                    thr = obj.bufferedAmountLowThreshold
+                    if before > thr and mon.shadow <= thr:
+                        mon.low_expected += 1
+                    self.counters["handovers_observed"] += 1
+            ep.in_send += 1
+            try:
+                return await real(stream_id, pp_id, user_data, *a, **kw)
+            finally:
+                ep.in_send -= 1
+
+        ep.sctp._send = _send
+
     # ------------------------------------------------------------------ channel bookkeeping
 
     def other(self, ep):
@@ -457,6 +497,11 @@ class SctpRig:
         def on_low():
             mon.low_seen += 1
             self.counters["bufferedamountlow_events"] += 1
+            if mon.low_seen > mon.low_expected and not self.relay:
+                self.violation("lifecycle", "bufferedamountlow-spurious",
+                               f"bufferedamountlow without a downward crossing (seen {mon.low_seen}, crossings {mon.low_expected})",
+                               chan=chan.uid if chan else None, ep=ep.name)
+                mon.low_expected = mon.low_seen
 
         def on_message(value):
             self._on_message(ep, obj, chan, mon, value)
@@ -635,7 +680,7 @@ class SctpRig:
             return False
         flow.accepted[-1] = True
         enc = len(value.encode()) if isinstance(value, str) else len(value)
-        mon.shadow_sent = getattr(mon, "shadow_sent", 0) + max(1, enc)
+        mon.shadow += max(1, enc)
         mon.sample("after-send")
         return True
 
